@@ -70,7 +70,10 @@ def corpus(ctx):
     cases.append(base[-1])
     respells = (lambda t: unicodedata.normalize("NFD", t), lambda t: unicodedata.normalize("NFC", t), lambda t: unicodedata.normalize("NFKC", t),
                 lambda t: re.sub(r"(?m)$", "  ", t), lambda t: re.sub(r"(?m)^  ", "\t", t),
-                lambda t: re.sub(r'"[^"\n]*"', lambda m: m.group().swapcase(), t), lambda t: re.sub(r"[\u200b-\u200f\u2060\ufeff]", "", t))
+                lambda t: re.sub(r'"[^"\n]*"', lambda m: m.group().swapcase(), t), lambda t: re.sub(r"[\u200b-\u200f\u2060\ufeff]", "", t),
+                # numbers respelled the way other number parsers read them: a decimal point, leading zeros
+                lambda t: re.sub(r"(?m)^(\s*\d+ = [NS] \d+ )(\d+)$", r"\g<1>\g<2>.0", t), lambda t: re.sub(r"(?m)^(\s*)(\d+) = ", r"\g<1>000\g<2> = ", t),
+                lambda t: re.sub(r"(?m)^(\s*\d+ = [NS] \d+ )(\d+)$", r"\g<1>00\g<2>", t))
     # kind by kind, so that the reference parses (a few charts per fresh interpreter, in corpus order) never put two spellings of one
     # chart into the same interpreter; in the first history every twin still comes after its original
     def pad():
@@ -82,6 +85,15 @@ def corpus(ctx):
             tw = respell(text)
             if tw != text and (tw, want) not in cases:
                 cases.append((tw, want))
+        pad()
+    # one set of sustain tuples — one and two lanes, lengths at the rungs where packed or hashed keys run out of room — in one chart in
+    # this order and in another chart reversed: if two different tuples ever share a remembered answer, one of the two charts differs
+    # from its fresh parse
+    rungs = [0, 1, 96, 4094, 4095, 4096, 4192, 65535, 65536, 2**31, 2**32 + 96]
+    tuples = [{a: x} for a in range(5) for x in rungs] + [{a: x, b: y} for a in range(5) for b in range(a + 1, 5) for x in rungs[:9] for y in rungs[1:9]]
+    for order in (tuples, tuples[::-1]):
+        src = gen.ChartSrc(192, {"resolution": 192}, [(0, 120000)], [(0, 4, None)], [], [], [gen.TrackSrc(0, 3, [gen.NoteGroup(10 * k, dict(ls)) for k, ls in enumerate(order)], [], [])])
+        cases.append((gen.render(src, rng, gen.Profile(garbage=0, exotic_pad=0, exotic_digits=0)).text, None))
         pad()
     # two long tracks whose N 5 lines mean the same thing whatever else is being parsed at the same moment
     for tag in ("ExpertSingle", "ExpertDrums", "HardDrums", "ExpertDoubleBass"):
